@@ -1,7 +1,12 @@
 (* C17 — The lossy read buffer may drop reads but never corrupts them.
    Model: Ring.v — one step per atomic access of ring.add / ring.drainTo; any number of producer
-   threads, one consumer; a schedule is an arbitrary list of (thread, payload). *)
-From Otter Require Import Base Ring RingProofs.
+   threads, one consumer; a schedule is an arbitrary list of (thread, payload).
+   Striped.v — the table of rings that grows under contention (stripe creation, table creation and
+   table expansion under the busy spin lock), one step per access to shared state by an Add call;
+   rings are abstract there (lists of recorded elements; whether ring.add succeeds, loses its CAS or
+   finds the ring full is an input).  Tied to the code by the "stripe" engine (macro-step schedules
+   replayed on the model). *)
+From Otter Require Import Base Ring RingProofs Striped StripedProofs.
 
 (* the protocol invariant holds after every schedule, from a fresh ring, for any number of producers *)
 Theorem C17_inv : forall first nprod sched, inv (ring_exec (ring_init first nprod) sched).
@@ -53,4 +58,44 @@ Example C17_nonvacuous :
   (* producer 1 publishes; a second drain delivers 7 *)
   let r3 := ring_exec r2 [ev 1%nat 0; ev 0%nat 0; ev 0%nat 0; ev 0%nat 0; ev 0%nat 0; ev 0%nat 0; ev 0%nat 0; ev 0%nat 0; ev 0%nat 0] in
   recorded r1 = [100; 7] /\ nth 1 (rprods r1) PIdle = PDone (-1) /\ delivered r2 = [100] /\ delivered r3 = [100; 7].
+Proof. vm_compute. repeat split. Qed.
+
+
+(* ---- the striped table, for any number of concurrent Add calls, any schedule, any inputs ---- *)
+
+(* no stripe is ever lost: every ring that was ever created is in the current table, so a drain visits it *)
+Theorem C17_striped_no_lost_ring : forall maxl elems idxs sched r,
+  let s := srun (sinit maxl elems idxs) sched in
+  (r < length (rings s))%nat -> In r (visible_rings s).
+Proof. intros maxl elems idxs sched r s Hr. apply no_lost_ring; [apply SInv_run; apply SInv_init|exact Hr]. Qed.
+Print Assumptions C17_striped_no_lost_ring.
+
+(* ... and in exactly one cell of it: a drain visits every ring once *)
+Theorem C17_striped_rings_once : forall maxl elems idxs sched,
+  NoDup (visible_rings (srun (sinit maxl elems idxs) sched)).
+Proof. intros. apply visible_nodup. apply SInv_run. apply SInv_init. Qed.
+Print Assumptions C17_striped_rings_once.
+
+(* the busy spin lock admits one Add at a time into the sections that mutate the table *)
+Theorem C17_striped_mutex : forall maxl elems idxs sched,
+  (scnt crit (sths (srun (sinit maxl elems idxs) sched)) <= 1)%nat.
+Proof. intros. apply busy_mutex. apply SInv_run. apply SInv_init. Qed.
+Print Assumptions C17_striped_mutex.
+
+(* an element is recorded in the rings exactly once if its Add succeeded (or is about to return
+   Success), and not at all if it failed, found its ring full, or is still running *)
+Theorem C17_striped_recorded_iff_success : forall maxl elems idxs sched j t,
+  NoDup elems -> length idxs = length elems ->
+  let s := srun (sinit maxl elems idxs) sched in
+  nth_error (sths s) j = Some t ->
+  zcount (elem t) (concat (rings s)) = b2n (placed t).
+Proof. exact recorded_iff_success. Qed.
+Print Assumptions C17_striped_recorded_iff_success.
+
+(* non-vacuity: two Adds on an empty buffer; the first creates the table, the second (probing the same
+   cell) records into the same ring; both succeed and both elements are in the one visible ring *)
+Example C17_striped_instance :
+  let s := srun (sinit 4 [7; 8]%Z [5; 9]%nat)
+                [(0,0); (0,0); (0,0); (0,0); (0,0); (1,0); (1,0); (1,0)]%nat in
+  map spc_ (sths s) = [SDone SrSuccess; SDone SrSuccess] /\ rings s = [[7; 8]%Z] /\ visible_rings s = [0%nat].
 Proof. vm_compute. repeat split. Qed.
